@@ -26,6 +26,42 @@ CLAIMED = {
              "len and the passed_objects value, and by bitwise comparison of every gradual result with the one-shot Performance. "
              "Taiko: model + correspondence only; findings F6a/F6b (partial).",
         tech="Coq simulation proof (gradual performance refines one-shot performance of the prefix) + model/impl correspondence + bitwise differential"),
+    "C04": dict(
+        text="Coq theorem, for every mode, map, Difficulty, score specification and every difficulty/state/pp oracle: "
+             "calculate() from the attributes the map yields = calculate() from the map (both evaluate pp on the same attributes, "
+             "settings and generated state), over a model that interprets the Map arm of the four builders as REGENERATED from the "
+             "source on every run (translator tools/extract.py; finite table theorems re-checked by the kernel). The pp bodies are "
+             "oracles. Tied to the code additionally by a bitwise differential over all entry points (map by ref/value, difficulty "
+             "and performance attributes, .performance(), mode builders, try_mode, calculate after generate_state) and the "
+             "embedded difficulty attributes.",
+        tech="Coq proof over a model interpreting translator-generated tables + bitwise entry-point differential"),
+    "C07": dict(
+        text="Coq theorems over decision trees REGENERATED from convert/convert_ref/convert_mut on every run: on all 32 "
+             "(source mode, is_convert, target) combinations the three entry points agree with each other and with the "
+             "specification (identity on the own mode, only unconverted osu! converts, result flagged, both errors), for every "
+             "map payload, mods and converter oracle; every one of the 12 mode entry points starts with convert_ref to its own mode "
+             "with the caller's mods, hence calculating directly = calculating on the explicitly converted map (theorem). The "
+             "converters' effect on the objects is an oracle. Tied to the code additionally by a bitwise differential "
+             "(convert*/calculate_for_mode/strains_for_mode/gradual/try_mode/mode_or_ignore).",
+        tech="Coq proof over translator-generated decision trees + bitwise differential"),
+    "C08": dict(
+        text="Coq theorems over the accessor tables REGENERATED from src/model/mods.rs on every run: every has-mod accessor and "
+             "the mania key count answer the same for the lazer, intermode and legacy representation of ANY legacy-representable "
+             "selection; every lazer rate mod contributes the speed change it carries (so speed r = clock_rate(r)); "
+             "DifficultyAdjust accessors cover ar/cs for osu!/catch and hp/od for all modes. The correspondence between legacy bits, "
+             "intermode names and lazer variants is rosu-mods' (trusted). Tied to the code by a bitwise differential over five "
+             "representations, rate mods with custom speed vs clock_rate, DifficultyAdjust vs overrides (difficulty, strains, "
+             "performance).",
+        tech="Coq proof over translator-generated accessor tables + bitwise representation differential"),
+    "C18": dict(
+        text="Coq theorems: for every sequence of setter calls, mode and starting Difficulty, Performance setters (interpreted "
+             "through the dispatch tables REGENERATED from the source on every run) leave exactly the Difficulty that the same "
+             "setters build, no-op arms (all documented as irrelevant - table theorem) aside; inspect/into_difficulty round trip "
+             "for every reachable Difficulty; clamps hold for EVERY float incl. NaN/inf and are idempotent; independent setters "
+             "commute, the last call wins. Which Difficulty fields a mode's calculation reads is not modelled (direct oracle). "
+             "Tied to the code by a bitwise differential (setters vs Difficulty, mode builders, round trip, clamps, shuffled "
+             "orders, irrelevant setters).",
+        tech="Coq proof over a Difficulty model and translator-generated dispatch tables + bitwise differential"),
     "C11": dict(
         text="Coq theorems (unbounded op sequences) that the compact strain list refines a plain list, that transmute_into_vec's "
              "and from_raw_parts' contracts hold and that zero counts never overflow; model tied to src/util/strains_vec.rs by "
